@@ -303,5 +303,8 @@ Definition quorum_of (rn : run) : list N := map fst (r_asked rn).
 Definition admitted_keys (s : state) : list (N * N) :=
   map (fun x => (x.1, r_prop x.2)) (filter (fun x => admitted_run x.2 = true) (map_to_list (s_runs s))).
 
+(* what pledge.Pledge of node p has been handed so far: (node key, cluster key) *)
+Definition result_of (s : state) (p : N) : option (N * N) := p_result (pl_of s p).
+
 Definition lookup_pmax (pl : list (N * nat)) (p : N) : nat :=
   match list_find (fun x => x.1 = p) pl with Some (_, x) => x.2 | None => 10%nat end.
